@@ -15,6 +15,10 @@ func encodeXterm(key vaxis.Key, deckpam bool, decckm bool) string {
 	xtermMods := key.Modifiers & vaxis.ModShift
 	xtermMods |= key.Modifiers & vaxis.ModAlt
 	xtermMods |= key.Modifiers & vaxis.ModCtrl
+	if key.Keycode == vaxis.KeyTab && xtermMods == vaxis.ModShift {
+		// Back tab
+		return "\x1B[Z"
+	}
 	if xtermMods == 0 {
 		// function keys
 		if val, ok := keymap[key.Keycode]; ok {
